@@ -6,7 +6,7 @@ import itertools
 from .. import common, units_ref as U
 from ..common import violation
 
-SETTINGS = [(7.8e9, 2100.0, 47.0, 51.0), (3.29e8, 2100.0, 61.7, 59.5), (6.3e5, 1800.0, 35.0, 70.0), (1.0, 2500.0, 50.0, 50.0)]
+SETTINGS = [(7.8e9, 2100.0, 47.0, 51.0), (3.29e8, 2100.0, 61.7, 59.5), (632275.5, 1800.0, 35.0, 70.0), (2.5, 2500.0, 50.0, 50.0)]   # incl. non-integer populations (a scaled or aggregated population need not be whole)
 VALS = (3.5, 0.25, 120.0)
 
 
@@ -126,7 +126,7 @@ def job(args):
 
 
 # ------------------------------------------------------------------ histories of settings on the one shared conversions object
-HIST_MENU = [(p, k, f, q) for p in (7.8e9, 6.3e5) for k in (2100.0, 1800.0) for f in (47.0, 61.7) for q in (51.0, 59.5)]
+HIST_MENU = [(p, k, f, q) for p in (7.8e9, 10500.75) for k in (2100.0, 1800.0) for f in (47.0, 61.7) for q in (51.0, 59.5)]
 ANCHORS = ("percent_fed", "daily_per_person", "kcals_equivalent", "billions_fed")
 
 
